@@ -67,10 +67,7 @@ def main():
         "setup_cmd": "./setup.sh",
         "hooks": {
             "guard": "AOTOOLS_VERIF",
-            "enable": "no source hooks exist: every seam is reached from outside (module attribute "
-                      "slopecovariance.multiprocessing, Generator-accepting seed parameters, "
-                      "numpy.random.choice); checks import /repo's working tree directly with "
-                      "AOTOOLS_VERIF=1 set",
+            "enable": "no source hooks exist: every seam is reached from outside (process pools and executors redirected by mc/sched.patched_pools / patched_executors whatever the import style, scripted numpy.random.Generator objects passed through the documented seed parameters, the draw primitives of NumPy's global RandomState intercepted generically, sys.settrace for the single-preemption observations); checks import /repo's working tree directly with AOTOOLS_VERIF=1 set",
             "baseline_off_cmd": BASELINE,
             "source_commits": [],
             "add_only": True,
